@@ -3,45 +3,463 @@ C31  Actions are marked direct only when the user asked for them
 
 Theorems: GristProps/C31.lean (direct_parallel for every step incl. rollback and finish; flush marks non-direct).
 Tie: model direct list == engine's.  Search: independent classification of every stored action.
+
+Mid-bundle evaluation (added after a seeded change that `./check C31` missed).  Summary-table rows are added by
+the per-table `#summary#` helper formulas (Table._add_update_summary_col: lookupOrAddDerived for plain group-by
+columns, a BulkAddRecord for list-valued ones).  Normally these formulas run in the final recalculation of
+Engine.apply_user_actions, but a user action that LOOKS RECORDS UP BY A FORMULA COLUMN ([Bulk]AddOrUpdateRecord
+whose `require` names a formula column) evaluates that column in the middle of the bundle; if the column reads a
+formula column of a summary table (count / group / an aggregate) the helper runs right there, between two of the
+user's doc actions.  The property makes no difference: that summary row is maintenance and must be non-direct,
+and the user's edits around it must be direct.  Two sources exercise this on every run:
+  * witness histories (`_witness_run`): a fixed document (source table, second table, summary table grouped by
+    Text / Int / ChoiceList / two columns incl. a list column, formula columns reading the summary table from the
+    source table and from the other table) followed by bundles [edit that moves / adds source rows into groups
+    without a summary row] + [upsert keyed on such a formula column] (+ a trailing edit);
+  * two generator kinds in the random histories (`c31_mid_setup`, `c31_mid_upsert`) doing the same on whatever
+    summary tables the random history has produced.
+Interpretation for upserts: the rows an upsert reports as added / updated (its return value) are "the user's
+requested record edits": the stored Add / data-cell Update actions of those rows on an ordinary user table must
+include a direct one (same demand as for plain Add / Update / Remove).
+These situations are judged by the DIRECT ORACLE only (classify()).  The Lean model observes the flag of each doc
+step, it does not model which code runs inside `with indirect_actions()`, so it agrees with the engine whatever
+the flag of a mid-bundle summary row is.
 """
+import copy
 import json
+import random
+import types
 
 from gx.props import _hist
 
 PROP = "C31"
 CFG = {"oracles": ('direct', 'replica'), "n_bundles": 14, "hook": 'gx.props.c31.install',
        "profile": {"add_empty_column": 6, "summary": 5, "add_formula_column": 7, "add_record": 16, "update_record": 16, "remove_record": 8,
-                   "undo_earlier": 0, "malformed": 2, "remove_table": 0.3, "remove_column": 1}}
+                   "undo_earlier": 0, "malformed": 2, "remove_table": 0.3, "remove_column": 1,
+                   "c31_mid_setup": 2, "c31_mid_upsert": 8}}
 TIE_KINDS = ('direct', 'driver')
+# histories 0 .. N_RANDOM-1 of a run are random histories, the following N_WITNESS ones are witness histories
+N_RANDOM = {"quick": 20, "thorough": 1600}
+N_WITNESS = {"quick": 10, "thorough": 200}
+MID_COUNTERS = ("mid_witness_bundles", "mid_generated_bundles", "mid_bundles_rejected",
+                "upsert_keyed_on_formula_column", "upsert_keyed_on_formula_column_reading_summary_table",
+                "summary_row_added_mid_bundle", "summary_row_added_mid_bundle_plain_helper",
+                "summary_row_added_mid_bundle_list_helper", "summary_row_added_mid_bundle_upsert_on_other_table",
+                "summary_row_added_mid_bundle_in_random_history", "upsert_requested_edits_judged")
 
 
 def run(ck):
   ck.rule = 'seeded histories of record edits on documents with formulas and summary tables; every stored action is classified independently (see classify()); non-trivial = bundle with both direct and non-direct actions'
-  ck.assumptions = ['user formulas are deterministic programs over the cells they read (generator emits only such formulas)', 'private / virtual columns (#lookup, #summary helpers) are not communicated and not modelled', 'documents compare by canonical encodings (equal_encoding): 1 and 1.0 are the same stored value, True and 1 are not']
+  ck.assumptions = ['user formulas are deterministic programs over the cells they read (generator emits only such formulas)', 'private / virtual columns (#lookup, #summary helpers) are not communicated and not modelled', 'documents compare by canonical encodings (equal_encoding): 1 and 1.0 are the same stored value, True and 1 are not',
+                    'bundles in which a formula (hence a summary-table helper) is evaluated in the MIDDLE of the bundle (upsert keyed on a formula column that reads a summary table) are judged by the direct oracle only: the Lean model takes the flag of every doc step from the recorded step word, so it cannot tell a summary row that is wrongly flagged direct; the tie still checks stored/direct parallelism and the flag bookkeeping on them',
+                    'an upsert\'s requested edits are the rows its return value reports as added / updated',
+                    'on the unchanged tree such bundles also lose the calc deltas of the cells evaluated mid-bundle (a C02 matter: stored actions do not carry them); C02 findings raised by the replica oracle in this run are counted in other_property_findings_ignored, not judged here, and model/engine disagreements after them count as explained']
   ck.lean(['GristProps.C31'])
-  merged = _hist.run_histories(ck, CFG, n_quick=20, n_thorough=1600)
+  nr, nw = N_RANDOM.get(ck.tier, N_RANDOM["thorough"]), N_WITNESS.get(ck.tier, N_WITNESS["thorough"])
+  cfg = dict(CFG, c31_n_random=nr)
+  merged = _hist.run_histories(ck, cfg, n_quick=nr + nw, n_thorough=nr + nw)
   post(ck, merged)
   _hist.report(ck, merged, PROP, TIE_KINDS)
 
 
 RECORD_KINDS = {"add_record", "bulk_add", "update_record", "bulk_update", "remove_record", "bulk_remove",
-                "upsert", "temp_ids"}
+                "upsert", "temp_ids", "c31_mid_upsert", "c31_mid_witness", "replay_record"}
+RECORD_UAS = ("AddRecord", "BulkAddRecord", "UpdateRecord", "BulkUpdateRecord", "RemoveRecord",
+              "BulkRemoveRecord", "AddOrUpdateRecord", "BulkAddOrUpdateRecord")
+MID_SIG = "summary-table row added in the middle of the bundle (before a later user edit) marked direct"
+
+
+def _history_index(h):
+  """Index of this history within the run (the runner labels the tie with the history's seed)."""
+  try:
+    return int(h.tie.label) % 100000
+  except Exception:
+    return None
 
 
 def install(h, cfg):
   h.extra_oracles.append(classify)
+  for k in MID_COUNTERS:
+    h.stats.setdefault("c31_" + k, 0)
+  h.c31_names = 0
+  h.c31_fresh = 0
+  h.c31_witness = False
+  h.gen.g_c31_mid_setup = lambda w: g_mid_setup(h, w)
+  h.gen.g_c31_mid_upsert = lambda w: g_mid_upsert(h, w)
+  nr = cfg.get("c31_n_random")
+  idx = _history_index(h)
+  if nr is not None and idx is not None and idx >= nr:
+    h.c31_witness = True
+    h.run = types.MethodType(lambda self, k=idx - nr: _witness_run(self, k), h)
+  elif h.setup is None and h.rng.random() < 0.5:
+    h.setup = _prelude
+
+
+# ------------------------------------------------------------------------------------------------
+# generators: bundles that make the engine evaluate a summary-table helper in the middle of a bundle
+
+def _fresh(h, typ):
+  """A group-by value no row has yet (so that the group has no summary row), by column type."""
+  h.c31_fresh += 1
+  k = h.c31_fresh
+  base = typ.split(":")[0]
+  if base in ("Text", "Choice", "Any"):
+    return "m%d" % k
+  if base == "Int":
+    return 1000 + k
+  if base == "Numeric":
+    return 1000.5 + k
+  if base == "ChoiceList":
+    return ["L", "m%d" % k] if k % 3 else ["L", "m%d" % k, "n%d" % k]
+  return None
+
+
+def _crowded_rows(h, tid, cid, rows):
+  """Rows of `tid` ordered so that rows sharing their `cid` value with most other rows come first (moving one of
+  them leaves its old group alive, and the formulas of the rows left behind are recomputed)."""
+  try:
+    td = h.doc.engine.fetch_table(tid)
+    vals = dict(zip(td.row_ids, [json.dumps(v, sort_keys=True, default=str) for v in td.columns[cid]]))
+  except Exception:
+    return list(rows)
+  freq = {}
+  for r in rows:
+    freq[vals.get(r)] = freq.get(vals.get(r), 0) + 1
+  return sorted(rows, key=lambda r: (-freq.get(vals.get(r), 0), r))
+
+
+def _summaries(w):
+  """[(source table, summary table, [group-by column entries of the SOURCE table])] for summary tables that
+  still have their `count` formula column and at least one group-by column."""
+  by_ref = dict((t["ref"], t) for t in w.tables.values())
+  out = []
+  for s in w.user_tables(summary=True):
+    src = by_ref.get(s["summarySource"])
+    if not src or src["summarySource"]:
+      continue
+    gb = []
+    bad = False
+    for c in s["cols"]:
+      if c["summarySourceCol"]:
+        sc = w.cols_by_ref.get(c["summarySourceCol"])
+        if sc is None or sc["colId"] != c["colId"] or sc["table"] != src["tableId"]:
+          bad = True
+        else:
+          gb.append(sc)
+    if bad or not gb:
+      continue
+    if not any(c["colId"] == "count" and c["isFormula"] and c["formula"] for c in s["cols"]):
+      continue
+    out.append((src, s, gb))
+  return out
+
+
+def _mid_cols(w):
+  """Formula columns created by g_mid_setup that still read an existing summary table:
+  [(host table, column, source table, summary table, group-by columns)]."""
+  out = []
+  sums = _summaries(w)
+  for t in w.user_tables():
+    for c in w.formula_cols(t):
+      if not c["colId"].startswith("c31m"):
+        continue
+      for (src, s, gb) in sums:
+        if s["tableId"] + "." in c["formula"]:
+          out.append((t, c, src, s, gb))
+          break
+  return out
+
+
+def g_mid_setup(h, w):
+  """Stage 1: a summary table with 1-2 group-by columns (when the document has none that qualifies);
+  stage 2: AddColumn of a formula column that reads a formula column of a summary table (the key of later
+  upserts).  None when every (host, summary table) pair picked already has such a column."""
+  rng = h.gen.rng
+  have = set((t["tableId"], s["tableId"]) for (t, c, src, s, gb) in _mid_cols(w))
+  cands = _summaries(w)
+  if not cands:
+    ts = [t for t in w.user_tables() if any(c["type"] in ("Int", "Text", "Choice", "ChoiceList", "Numeric", "Bool")
+                                            for c in w.data_cols(t))]
+    if not ts:
+      return None
+    t = rng.choice(ts)
+    cs = [c for c in w.data_cols(t) if c["type"] in ("Int", "Text", "Choice", "ChoiceList", "Numeric", "Bool")]
+    gbs = rng.sample(cs, min(len(cs), rng.choice([1, 1, 2])))
+    return ["CreateViewSection", t["ref"], 0, "record", [c["ref"] for c in gbs], None]
+  src, s, gb = rng.choice(cands)
+  hosts = [src] + [t for t in w.user_tables() if t is not src]
+  host = src if rng.random() < 0.7 else rng.choice(hosts)
+  if (host["tableId"], s["tableId"]) in have:
+    return None
+  S = s["tableId"]
+  forms = ["SUM(r.count for r in %s.all)" % S, "MAX([len(r.group) for r in %s.all] + [0])" % S]
+  if host is src and all(c["type"].split(":")[0] in ("Text", "Int", "Choice", "Bool", "Numeric") for c in gb):
+    keys = ", ".join("%s=$%s" % (c["colId"], c["colId"]) for c in gb)
+    forms += ["%s.lookupOne(%s).count" % (S, keys), "len(%s.lookupOne(%s).group)" % (S, keys)]
+  h.c31_names += 1
+  return ["AddColumn", host["tableId"], "c31m%d" % h.c31_names,
+          {"type": "Any", "isFormula": True, "formula": rng.choice(forms)}]
+
+
+def _prelude(h):
+  """Set-up bundles of a random history (after its initial tables): summary table + formula column reading it,
+  so that `c31_mid_upsert` can fire from the first bundle on."""
+  from gx.gen_hist import World
+  for _ in range(2):
+    ua = g_mid_setup(h, World(h.doc))
+    if ua:
+      yield [ua]
+
+
+def _mover(h, w, src, gb):
+  """A record edit of the source table that puts rows into groups that have no summary row yet."""
+  rng = h.gen.rng
+  gen = h.gen
+  col = rng.choice(gb)
+  def val():
+    v = _fresh(h, col["type"])
+    return gen.value_for(w, col, allow_bad=False) if v is None else v
+  rows = _crowded_rows(h, src["tableId"], col["colId"], src["rows"])
+  kinds = ["add", "bulk_add", "upsert_add"] + (["update"] * 8 if rows else []) + \
+          (["bulk_update"] * 3 if len(rows) >= 2 else [])
+  k = rng.choice(kinds)
+  T = src["tableId"]
+  if k == "update":
+    return ["UpdateRecord", T, rows[0] if rng.random() < 0.7 else rng.choice(rows), {col["colId"]: val()}]
+  if k == "bulk_update":
+    rs = [rows[0], rng.choice(rows[1:])]
+    return ["BulkUpdateRecord", T, rs, {col["colId"]: [val() for _ in rs]}]
+  others = [c for c in w.data_cols(src) if c["colId"] != col["colId"] and rng.random() < 0.5]
+  if k == "add":
+    vals = {c["colId"]: gen.value_for(w, c, allow_bad=False) for c in others}
+    vals[col["colId"]] = val()
+    return ["AddRecord", T, None, vals]
+  if k == "bulk_add":
+    vals = {c["colId"]: [gen.value_for(w, c, allow_bad=False) for _ in range(2)] for c in others}
+    vals[col["colId"]] = [val(), val()]
+    return ["BulkAddRecord", T, [None, None], vals]
+  v = val()
+  if isinstance(v, list):     # list values are not lookup keys of an upsert
+    return ["AddRecord", T, None, {col["colId"]: v}]
+  return ["AddOrUpdateRecord", T, {col["colId"]: v}, {}, {}]
+
+
+def _key_values(h, tid, cid, n):
+  """n distinct `require` values for a formula column holding small numbers: values some rows hold now, values
+  they are likely to hold once the bundle's earlier edits are taken into account, and values nobody holds."""
+  rng = h.gen.rng
+  cur = []
+  try:
+    td = h.doc.engine.fetch_table(tid, formulas=True)
+    cur = [v for v in td.columns.get(cid, []) if isinstance(v, int) and not isinstance(v, bool)]
+  except Exception:
+    pass
+  pool = sorted(set(cur + [v + 1 for v in cur] + [v + 2 for v in cur] + [0, 1, 2, 99]))
+  rng.shuffle(pool)
+  return pool[:n]
+
+
+def _forcer(h, w, host, fcol):
+  """An upsert on `host` whose lookup key is the formula column `fcol`."""
+  rng = h.gen.rng
+  gen = h.gen
+  T, f = host["tableId"], fcol["colId"]
+  dcs = [c for c in w.data_cols(host)]
+  vcols = rng.sample(dcs, rng.randint(0, min(2, len(dcs)))) if dcs else []
+  opts = {}
+  r = rng.random()
+  if r < 0.3:
+    opts["on_many"] = rng.choice(["first", "none", "all"])
+  elif r < 0.4:
+    opts["add"] = False
+  elif r < 0.5:
+    opts["update"] = False
+  if rng.random() < 0.6:
+    kv = _key_values(h, T, f, 1)
+    return ["AddOrUpdateRecord", T, {f: kv[0]}, {c["colId"]: gen.value_for(w, c, allow_bad=False) for c in vcols}, opts]
+  kv = _key_values(h, T, f, rng.choice([2, 2, 3]))
+  return ["BulkAddOrUpdateRecord", T, {f: kv},
+          {c["colId"]: [gen.value_for(w, c, allow_bad=False) for _ in kv] for c in vcols}, opts]
+
+
+def g_mid_upsert(h, w):
+  """[edit moving source rows into new groups, upsert keyed on a formula column reading the summary table
+  (, trailing edit)] - one bundle."""
+  rng = h.gen.rng
+  cands = _mid_cols(w)
+  if not cands:
+    return g_mid_setup(h, w)      # a schema stage; classify() looks at record-edit bundles only
+  host, fcol, src, s, gb = rng.choice(cands)
+  src = w.tables.get(src["tableId"], src)
+  if len(src["rows"]) < 3:
+    # too few source rows for a group to survive a regrouping: add rows that share their group-by values
+    vals = dict((c["colId"], [h.gen.value_for(w, c, allow_bad=False)] * 3) for c in gb)
+    return ["BulkAddRecord", src["tableId"], [None] * 3, vals]
+  uas = [_mover(h, w, src, gb), _forcer(h, w, host, fcol)]
+  if rng.random() < 0.5:
+    t = rng.choice([src, host])
+    if t["rows"] and w.data_cols(t):
+      c = rng.choice(w.data_cols(t))
+      uas.append(["UpdateRecord", t["tableId"], rng.choice(t["rows"]), {c["colId"]: h.gen.value_for(w, c, allow_bad=False)}])
+  h.stats["c31_mid_generated_bundles"] += 1
+  return (uas,)
+
+
+# ------------------------------------------------------------------------------------------------
+# witness histories
+
+WITNESS_GROUPBY = [("cat",), ("n",), ("tags",), ("cat", "n"), ("cat", "tags")]
+
+
+def _witness_run(h, k):
+  """A fixed document + bundles that force a summary helper mid-bundle.  `k` rotates the group-by variant so
+  that every variant (plain helper, list helper, two columns) occurs in every quick run; everything else is
+  drawn from the history's seeded rng."""
+  from gx.gen_hist import World
+  rng = h.rng
+  gbv = WITNESS_GROUPBY[k % len(WITNESS_GROUPBY)]
+  col = lambda i, t: {"id": i, "type": t, "isFormula": False, "formula": ""}
+  h.apply([["AddTable", "Src", [col("cat", "Text"), col("n", "Int"), col("tags", "ChoiceList"),
+                                col("amount", "Numeric"), col("note", "Text")]]], ["init_table"])
+  h.apply([["AddTable", "Oth", [col("x", "Text"), col("y", "Int")]]], ["init_table"])
+  h.apply([["BulkAddRecord", "Src", [None] * 6, {
+    "cat": ["a", "a", "a", "b", "b", "c"], "n": [1, 1, 2, 2, 2, 3],
+    "tags": [["L", "p", "q"], ["L", "p"], ["L", "q"], ["L", "p"], ["L"], ["L", "q", "r"]],
+    "amount": [1, 2, 3, 4, 5, 6]}]], ["bulk_add"])
+  h.apply([["BulkAddRecord", "Oth", [None] * 3, {"x": ["a", "b", "zz"], "y": [1, 2, 3]}]], ["bulk_add"])
+  w = World(h.doc)
+  if "Src" not in w.tables or "Oth" not in w.tables:
+    raise RuntimeError("witness document could not be built")
+  refs = dict((c["colId"], c["ref"]) for c in w.tables["Src"]["cols"])
+  h.apply([["CreateViewSection", w.tables["Src"]["ref"], 0, "record", [refs[c] for c in gbv], None]], ["summary"])
+  if rng.random() < 0.4:      # a second summary table of the same source: two helpers
+    other = rng.choice([v for v in WITNESS_GROUPBY if v != gbv])
+    h.apply([["CreateViewSection", w.tables["Src"]["ref"], 0, "record", [refs[c] for c in other], None]], ["summary"])
+  w = World(h.doc)
+  S = None
+  for (src, s, gb) in _summaries(w):
+    if src["tableId"] == "Src" and tuple(sorted(c["colId"] for c in gb)) == tuple(sorted(gbv)):
+      S = s["tableId"]
+  if S is None:
+    raise RuntimeError("witness summary table not found")
+  plain = [c for c in gbv if c != "tags"]
+  keys = ", ".join("%s=$%s" % (c, c) for c in plain)
+  forms = {"fall": "SUM(r.count for r in %s.all)" % S}
+  if "tags" in gbv:
+    forms["fkey"] = "SUM(len(r.group) for r in %s.all if r.count)" % S
+    forms["fgrp"] = "MAX([r.count for r in %s.all] + [0])" % S
+  else:
+    forms["fkey"] = "%s.lookupOne(%s).count" % (S, keys)
+    forms["fgrp"] = "len(%s.lookupOne(%s).group)" % (S, keys)
+  for cid in sorted(forms):
+    h.apply([["AddColumn", "Src", cid, {"type": "Any", "isFormula": True, "formula": forms[cid]}]], ["add_formula_column"])
+  g = ("%s.lookupOne(cat=$x).count" % S) if gbv == ("cat",) else ("SUM(r.count for r in %s.all)" % S)
+  h.apply([["AddColumn", "Oth", "g", {"type": "Any", "isFormula": True, "formula": g}]], ["add_formula_column"])
+  types_ = {"cat": "Text", "n": "Int", "tags": "ChoiceList"}
+  n_b = 8
+  for b in range(n_b):
+    w = World(h.doc)
+    src, oth = w.tables.get("Src"), w.tables.get("Oth")
+    if not src or not oth:
+      break
+    rows = src["rows"]
+    gcol = rng.choice(gbv)
+    fresh = lambda: _fresh(h, types_[gcol])
+    crowd = _crowded_rows(h, "Src", gcol, rows)
+    keep = {"cat": "a", "n": 1, "tags": ["L", "p"]}[gcol]      # a group-by value that has a summary row
+    mk = ["update", "bulk_update", "add+remove", "bulk_add+update", "upsert_add+update", "update2", "add", "remove"][(b + k) % 8]
+    if len(rows) < 3:
+      mk = "add"
+    if mk == "update":
+      movers = [["UpdateRecord", "Src", crowd[0], {gcol: fresh()}]]
+    elif mk == "update2":      # every group-by column gets a fresh value
+      movers = [["UpdateRecord", "Src", crowd[0], dict((c, _fresh(h, types_[c])) for c in gbv)]]
+    elif mk == "bulk_update":
+      movers = [["BulkUpdateRecord", "Src", [crowd[0], crowd[-1]], {gcol: [fresh(), fresh()]}]]
+    elif mk == "add+remove":
+      movers = [["AddRecord", "Src", None, {gcol: fresh(), "amount": b}], ["RemoveRecord", "Src", crowd[0]]]
+    elif mk == "bulk_add+update":
+      movers = [["BulkAddRecord", "Src", [None, None], {gcol: [fresh(), fresh()], "amount": [b, b + 1]}],
+                ["UpdateRecord", "Src", crowd[0], {gcol: keep}]]
+    elif mk == "upsert_add+update":
+      first = ["AddRecord", "Src", None, {gcol: fresh()}] if gcol == "tags" else \
+              ["AddOrUpdateRecord", "Src", {gcol: fresh()}, {"amount": b}, {}]
+      movers = [first, ["UpdateRecord", "Src", crowd[0], {gcol: fresh()}]]
+    elif mk == "remove":       # control: no new group
+      movers = [["RemoveRecord", "Src", crowd[0]]]
+    else:                      # control: a new group, but nothing that is recomputed reads the summary table
+      movers = [["AddRecord", "Src", None, {gcol: fresh(), "amount": b}]]
+    on_oth = rng.random() < 0.3
+    T, f = ("Oth", "g") if on_oth else ("Src", rng.choice(sorted(forms)))
+    vals = rng.choice([{}, {"y": b}] if on_oth else [{}, {"note": "w%d" % b}, {"amount": 10 + b}, {"note": "w", "amount": b}])
+    opts = rng.choice([{}, {}, {}, {"on_many": "all"}, {"on_many": "none"}, {"on_many": "first"}, {"add": False}, {"update": False}])
+    if rng.random() < 0.6:
+      forcer = ["AddOrUpdateRecord", T, {f: _key_values(h, T, f, 1)[0]}, vals, opts]
+    else:
+      kv = _key_values(h, T, f, rng.choice([2, 3]))
+      forcer = ["BulkAddOrUpdateRecord", T, {f: kv}, dict((c, [v] * len(kv)) for c, v in vals.items()), opts]
+    uas = movers + [forcer]
+    left = [r for r in rows if not any(m[0] == "RemoveRecord" and m[2] == r for m in movers)]
+    if rng.random() < 0.5 and left:
+      uas.append(rng.choice([["UpdateRecord", "Src", rng.choice(left), {"note": "t%d" % b}],
+                             ["AddRecord", "Oth", None, {"x": "a", "y": b}],
+                             ["UpdateRecord", "Src", rng.choice(left), {"amount": 100 + b}]]))
+    h.gen.kinds["c31_mid_witness"] = h.gen.kinds.get("c31_mid_witness", 0) + 1
+    h.stats["c31_mid_witness_bundles"] += 1
+    rec = h.apply(uas, ["c31_mid_witness"])
+    if not rec["res"].ok:
+      h.stats["c31_mid_bundles_rejected"] += 1
+  h.end()
+  return h
+
+
+# ------------------------------------------------------------------------------------------------
+# the direct oracle
+
+def _upsert_edits(ua, rv):
+  """(family, rows, cols) for what an upsert reports to have done (its return value)."""
+  out = []
+  if not isinstance(rv, dict):
+    return out
+  cols = set(ua[3].keys()) if len(ua) > 3 and isinstance(ua[3], dict) else set()
+  if ua[0] == "AddOrUpdateRecord":
+    ids = [r for r in (rv.get("recordIds") or []) if isinstance(r, int)]
+    if rv.get("action") == "ADD":
+      out.append(("Add", ids, None))
+    elif rv.get("action") == "UPDATE":
+      out.append(("Update", ids, cols))
+  else:
+    added = [r for r in (rv.get("addRecordIds") or []) if isinstance(r, int)]
+    upd = []
+    for x in (rv.get("updateRecordIds") or []):
+      upd += [r for r in (x if isinstance(x, list) else [x]) if isinstance(r, int)]
+    if added:
+      out.append(("Add", added, None))
+    if upd:
+      out.append(("Update", upd, cols))
+  return out
 
 
 def classify(h, rec):
   """Independent classification of every stored action of a record-edit bundle."""
   if not rec["kinds"] or not set(rec["kinds"]) <= RECORD_KINDS:
     return
+  if not all(ua and ua[0] in RECORD_UAS for ua in rec["actions"]) and \
+     any(k.startswith("c31_mid") or k.startswith("replay") for k in rec["kinds"]):
+    return      # a schema stage of the c31_mid kinds (or a replayed bundle that is not one of record edits)
   res = rec["res"]
   doc = h.doc
+  st = h.stats
+  find = lambda sig, detail: h._find("C31", sig, detail, rec, {"kinds": list(rec["kinds"])})
   sch = doc.engine_schema()
   summary_tables = set(t["tableId"] for t in doc.meta("_grist_Tables") if t.get("summarySourceTable"))
   tname = dict((t["id"], t["tableId"]) for t in doc.meta("_grist_Tables"))
   crecs = dict((c["id"], c) for c in doc.meta("_grist_Tables_column"))
+  # summary tables with a list-valued group-by column: their rows come from the list variant of the helper
+  # (the summary table's own column is Choice / Ref; the SOURCE column is the list-typed one)
+  list_summaries = set(tname.get(c["parentId"]) for c in crecs.values()
+                       if c.get("summarySourceCol") and
+                       str(crecs.get(c["summarySourceCol"], {}).get("type", "")).split(":")[0] in ("ChoiceList", "RefList"))
   reverse_of = {}
   for c in crecs.values():
     r = crecs.get(c.get("reverseCol") or 0)
@@ -52,22 +470,48 @@ def classify(h, rec):
     def get(self, k, d=(None, None)):
       return dict.get(self, k, d)
   reverse_of = _Rev(reverse_of)
-  doc_steps = set(json.dumps(st[1], sort_keys=True) for st in (res.steps or []) if st and st[0] == "doc" and st[-1] == "ok")
-  requested = set()
+  doc_steps = set(json.dumps(st_[1], sort_keys=True) for st_ in (res.steps or []) if st_ and st_[0] == "doc" and st_[-1] == "ok")
+  # data writes performed as doc actions on ordinary user tables (not by the calc flush), by stored position:
+  # a summary row added BEFORE one of them was added in the middle of the bundle
+  user_writes = [i for i, a in enumerate(res.stored)
+                 if a[0].endswith("Record") and a[1] in sch and a[1] not in summary_tables and not a[1].startswith("_grist_")
+                 and json.dumps(a, sort_keys=True) in doc_steps]
+  last_user_write = max(user_writes) if user_writes else -1
+  # upserts whose lookup key is a formula column (they make the engine evaluate it during the user action)
+  fkey = fkey_sum = other_table = False
   for ua in rec["actions"]:
-    if ua[0] in ("AddRecord", "BulkAddRecord", "UpdateRecord", "BulkUpdateRecord", "RemoveRecord",
-                 "BulkRemoveRecord", "AddOrUpdateRecord", "BulkAddOrUpdateRecord"):
-      requested.add(ua[1])
+    if ua[0] in ("AddOrUpdateRecord", "BulkAddOrUpdateRecord") and len(ua) > 2 and isinstance(ua[2], dict) and ua[1] in sch:
+      for c in ua[2]:
+        e = sch[ua[1]].get(c)
+        if e and e[1] and e[2]:
+          fkey = True
+          if any((s + ".") in e[2] for s in summary_tables):
+            fkey_sum = True
+            src_of = [tname.get(t.get("summarySourceTable")) for t in doc.meta("_grist_Tables") if (t["tableId"] + ".") in e[2]]
+            if ua[1] not in src_of:
+              other_table = True
+  if fkey:
+    st["c31_upsert_keyed_on_formula_column"] += 1
+  if fkey_sum:
+    st["c31_upsert_keyed_on_formula_column_reading_summary_table"] += 1
+  mid_seen = set()
   mixed = set()
-  for a, flag in zip(res.stored, res.direct):
+  for i, (a, flag) in enumerate(zip(res.stored, res.direct)):
     name, tid = a[0], a[1]
     mixed.add(flag)
     # maintenance of summary-table ROWS = adding / removing them (an update of a summary table's
     # group-by cell can also be the reference clean-up of a user's removal, which the property
     # does not classify; updates of its formula columns fall under the next clause)
     if tid in summary_tables and name in ("AddRecord", "BulkAddRecord", "RemoveRecord", "BulkRemoveRecord"):
+      mid = "Add" in name and i < last_user_write and json.dumps(a, sort_keys=True) in doc_steps
+      if mid:
+        mid_seen.add("list" if tid in list_summaries else "plain")
       if flag:
-        h._find("C31", "summary-table row maintenance marked direct", "%s %s" % (name, tid), rec)
+        if mid:
+          find(MID_SIG, "%s %s %r stored[%d] direct=True, followed by the user's %s %s at stored[%d]" % (
+            name, tid, a[2], i, res.stored[last_user_write][0], res.stored[last_user_write][1], last_user_write))
+        else:
+          find("summary-table row maintenance marked direct", "%s %s" % (name, tid))
       continue
     if name in ("UpdateRecord", "BulkUpdateRecord") and tid in sch:
       cols = list(a[3].keys())
@@ -89,21 +533,38 @@ def classify(h, rec):
       if cols and all(c in sch[tid] and (sch[tid][c][1] or (sch[tid][c][2] and c not in supplied and not from_doc))
                       for c in cols):
         if flag:
-          h._find("C31", "update of formula results marked direct", "%s %s %r" % (name, tid, cols), rec)
+          find("update of formula results marked direct", "%s %s %r" % (name, tid, cols))
         continue
     if name in ("ModifyColumn",) or (tid == "_grist_Tables_column" and name.endswith("UpdateRecord")):
       if flag:
-        h._find("C31", "column conversion while entering data marked direct", "%s %s" % (name, tid), rec)
+        find("column conversion while entering data marked direct", "%s %s" % (name, tid))
       continue
+  if mid_seen:
+    st["c31_summary_row_added_mid_bundle"] += 1
+    if "plain" in mid_seen:
+      st["c31_summary_row_added_mid_bundle_plain_helper"] += 1
+    if "list" in mid_seen:
+      st["c31_summary_row_added_mid_bundle_list_helper"] += 1
+    if other_table:
+      st["c31_summary_row_added_mid_bundle_upsert_on_other_table"] += 1
+    if not getattr(h, "c31_witness", False):
+      st["c31_summary_row_added_mid_bundle_in_random_history"] += 1
   # the requested edits: for every user action that updates / adds / removes given rows of an ordinary
   # user table, the cells it names must be carried by a DIRECT stored action; it is a violation when
-  # stored actions touch those cells but none of them is direct
+  # stored actions touch those cells but none of them is direct.  For an upsert the rows are the ones
+  # its return value reports as added / updated.
+  requests = []
   for ua, rv in zip(rec["actions"], res.ret):
     kind = ua[0]
-    if kind not in ("UpdateRecord", "BulkUpdateRecord", "AddRecord", "BulkAddRecord", "RemoveRecord", "BulkRemoveRecord"):
+    if kind not in RECORD_UAS:
       continue
     tid = ua[1]
     if tid in summary_tables or tid.startswith("_grist_") or tid not in sch:
+      continue
+    if kind in ("AddOrUpdateRecord", "BulkAddOrUpdateRecord"):
+      for (fam, rows, cols) in _upsert_edits(ua, rv):
+        requests.append((kind, tid, fam, rows, cols))
+        st["c31_upsert_requested_edits_judged"] += 1
       continue
     if kind == "AddRecord":
       rows, cols = ([rv] if isinstance(rv, int) else []), set(ua[3].keys())
@@ -117,10 +578,12 @@ def classify(h, rec):
       rows, cols = [ua[2]], None
     else:
       rows, cols = list(ua[2]), None
-    rows = [r for r in rows if isinstance(r, int) and r > 0]
+    fam = "Add" if "Add" in kind else ("Update" if "Update" in kind else "Remove")
+    requests.append((kind, tid, fam, rows, cols))
+  for (kind, tid, fam, rows, cols) in requests:
+    rows = [r for r in rows if isinstance(r, int) and not isinstance(r, bool) and r > 0]
     if not rows:
       continue
-    fam = "Add" if "Add" in kind else ("Update" if "Update" in kind else "Remove")
     touching = []
     for a, flag in zip(res.stored, res.direct):
       if a[1] != tid or fam not in a[0] or not a[0].endswith("Record"):
@@ -135,15 +598,55 @@ def classify(h, rec):
           continue
       touching.append(flag)
     if touching and not any(touching):
-      h._find("C31", "requested record edit on a user table marked non-direct", "%s %s rows %r" % (kind, tid, rows), rec)
+      find("requested record edit on a user table marked non-direct", "%s %s rows %r" % (kind, tid, rows))
   if len(mixed) == 2:
     rec["nontrivial"] = True
 
 
 def post(ck, merged):
-  pass
+  stats = merged["stats"]
+  for k in MID_COUNTERS:
+    ck.count(k, stats.get("c31_" + k, 0))
+  other = {}
+  for (p, sig, detail, replay, seed) in merged["findings"]:
+    if p != PROP:
+      key = "%s: %s" % (p, sig)
+      other[key] = other.get(key, 0) + 1
+  ck.extra["other_property_findings_ignored"] = other
 
 
 def replay(ck, rp):
+  """Replay a recorded history: the prefix is applied plainly, the offending bundle with the oracles
+  (incl. classify) on."""
   ck.lean(['GristProps.C31'])
-  _hist.replay_history(ck, rp, PROP, CFG["oracles"])
+  from gx import common
+  common.setup_repo_path()
+  from gx.hist_run import HistoryRun
+  r = rp["replay"]
+  hist = r["history"]
+  idx = r.get("bundle_index", len(hist) - 1)
+  h = HistoryRun(random.Random(0), n_bundles=0, oracles=CFG["oracles"])
+  h.extra_oracles.append(classify)
+  for k in MID_COUNTERS:
+    h.stats.setdefault("c31_" + k, 0)
+  for b in hist[:idx]:
+    res = h._raw(b)
+    if "replica" in h.oracles and getattr(res, "ok", False):
+      for a in res.stored:
+        h.replica.apply(a)
+      del h.replica.problems[:]
+    ck.evaluated()
+  kinds = r.get("kinds")
+  if not kinds:
+    kinds = ["replay_record"] if all(ua and ua[0] in RECORD_UAS for ua in hist[idx]) else ["replay"]
+  h.apply(copy.deepcopy(hist[idx]), list(kinds))
+  ck.evaluated()
+  n = 0
+  for f in h.findings:
+    print("replay finding:", f[0], f[1], f[2][:300])
+    if f[0] == PROP:
+      n += 1
+      ck.violation(f[1], f[2], {"history": hist, "bundle_index": idx, "kinds": list(kinds)})
+  if not n:
+    print("replay: property holds on this history")
+  ck.nontrivial_case("replay"); ck.nontrivial_case("replay2")
